@@ -27,7 +27,7 @@ import (
 type srcWrite struct {
 	Var  string // pkg.name
 	Fn   string // pkg.func or pkg.Type.method
-	Kind string // assign | incdec | delete | addr | atomic   (suffix "+lock" when a Lock() call precedes it in the function)
+	Kind string // assign | incdec | delete | addr | atomic | call:<Method> | send | recv   (suffix "+lock" when a Lock() call precedes an assignment in the function)
 }
 
 type srcPkg struct {
@@ -35,6 +35,7 @@ type srcPkg struct {
 	files []*ast.File
 	fset  *token.FileSet
 	vars  map[string]bool // package-level variable names
+	kinds map[string]string // package-level variable -> syntactic type ("sync.Pool", "chan", "list.List", …; "" unknown)
 }
 
 func loadSrcPkg(dir string) (*srcPkg, error) {
@@ -43,7 +44,7 @@ func loadSrcPkg(dir string) (*srcPkg, error) {
 	if err != nil {
 		return nil, err
 	}
-	p := &srcPkg{fset: fset, vars: map[string]bool{}}
+	p := &srcPkg{fset: fset, vars: map[string]bool{}, kinds: map[string]string{}}
 	var names []string
 	for _, e := range ents {
 		n := e.Name()
@@ -63,9 +64,17 @@ func loadSrcPkg(dir string) (*srcPkg, error) {
 		for _, d := range f.Decls {
 			if gd, ok := d.(*ast.GenDecl); ok && gd.Tok == token.VAR {
 				for _, s := range gd.Specs {
-					for _, id := range s.(*ast.ValueSpec).Names {
+					vs := s.(*ast.ValueSpec)
+					for i, id := range vs.Names {
 						if id.Name != "_" {
 							p.vars[id.Name] = true
+							k := ""
+							if vs.Type != nil {
+								k = typeText(vs.Type)
+							} else if i < len(vs.Values) {
+								k = initTypeText(vs.Values[i])
+							}
+							p.kinds[id.Name] = k
 						}
 					}
 				}
@@ -73,6 +82,117 @@ func loadSrcPkg(dir string) (*srcPkg, error) {
 		}
 	}
 	return p, nil
+}
+
+// typeText renders a type expression: sync.Pool, *list.List -> list.List, chan …
+func typeText(e ast.Expr) string {
+	switch x := e.(type) {
+	case *ast.StarExpr:
+		return typeText(x.X)
+	case *ast.SelectorExpr:
+		if id, ok := x.X.(*ast.Ident); ok {
+			return id.Name + "." + x.Sel.Name
+		}
+	case *ast.Ident:
+		return x.Name
+	case *ast.ChanType:
+		return "chan"
+	case *ast.MapType:
+		return "map"
+	case *ast.ArrayType:
+		return "slice"
+	}
+	return ""
+}
+
+// initTypeText guesses the type from an initialiser: sync.Pool{…}, &sync.Map{}, list.New(),
+// make(chan T), new(sync.Map)
+func initTypeText(e ast.Expr) string {
+	switch x := e.(type) {
+	case *ast.UnaryExpr:
+		return initTypeText(x.X)
+	case *ast.CompositeLit:
+		if x.Type != nil {
+			return typeText(x.Type)
+		}
+	case *ast.CallExpr:
+		if id, ok := x.Fun.(*ast.Ident); ok && (id.Name == "make" || id.Name == "new") && len(x.Args) > 0 {
+			return typeText(x.Args[0])
+		}
+		if sel, ok := x.Fun.(*ast.SelectorExpr); ok {
+			if id, ok := sel.X.(*ast.Ident); ok && id.Name == "list" && sel.Sel.Name == "New" {
+				return "list.List"
+			}
+			if id, ok := sel.X.(*ast.Ident); ok && id.Name == "ring" && sel.Sel.Name == "New" {
+				return "ring.Ring"
+			}
+		}
+	}
+	return ""
+}
+
+// containerLike: shared-state types from sync and friends whose methods mutate
+var containerLike = map[string]bool{"sync.Pool": true, "sync.Map": true, "atomic.Value": true, "list.List": true,
+	"ring.Ring": true, "chan": true, "bytes.Buffer": true, "strings.Builder": true, "heap.Interface": true,
+	"sync.Once": true, "sync.Cond": true, "sync.WaitGroup": true}
+
+// read-only methods of those types
+var containerReadOnly = map[string]bool{"Load": true, "Len": true, "Front": true, "Back": true, "String": true,
+	"Bytes": true, "Cap": true, "Lock": true, "Unlock": true, "RLock": true, "RUnlock": true}
+
+// method names that mutate whatever they are called on (used when the type is not known)
+var mutatingMethod = map[string]bool{"Put": true, "Store": true, "Delete": true, "LoadOrStore": true, "LoadAndDelete": true,
+	"Swap": true, "CompareAndSwap": true, "PushBack": true, "PushFront": true, "PushBackList": true, "PushFrontList": true,
+	"InsertBefore": true, "InsertAfter": true, "MoveToFront": true, "MoveToBack": true, "MoveBefore": true, "MoveAfter": true,
+	"Remove": true, "Init": true, "Reset": true, "Write": true, "WriteString": true, "WriteByte": true, "WriteRune": true,
+	"Push": true, "Pop": true, "Enqueue": true, "Dequeue": true, "Poll": true, "Clear": true}
+
+// forEachPkgVarMutation reports mutating uses of package-level variables that are not
+// syntactic assignments: method calls on container-like variables (sync.Pool Put/Get, sync.Map
+// Store/Delete/…, atomic.Value Store, container/list, …), channel sends and receives.
+func (p *srcPkg) forEachPkgVarMutation(n ast.Node, imports map[string]string, sink func(v string, kind string, pos token.Pos)) {
+	ast.Inspect(n, func(x ast.Node) bool {
+		switch s := x.(type) {
+		case *ast.SendStmt:
+			if id, _ := rootOf(s.Chan, imports); id != nil && p.isPkgLevel(id) {
+				sink(id.Name, "send", s.Pos())
+			}
+		case *ast.UnaryExpr:
+			if s.Op == token.ARROW {
+				if id, _ := rootOf(s.X, imports); id != nil && p.isPkgLevel(id) {
+					sink(id.Name, "recv", s.Pos())
+				}
+			}
+		case *ast.RangeStmt:
+			if id, _ := rootOf(s.X, imports); id != nil && p.isPkgLevel(id) && p.kinds[id.Name] == "chan" {
+				sink(id.Name, "recv", s.Pos())
+			}
+		case *ast.CallExpr:
+			sel, ok := s.Fun.(*ast.SelectorExpr)
+			if !ok {
+				return true
+			}
+			// the method must be called on the variable itself (possibly through & or *), not on
+			// an element or field of it
+			recv := unparen(sel.X)
+			if u, ok := recv.(*ast.UnaryExpr); ok && u.Op == token.AND {
+				recv = unparen(u.X)
+			}
+			if st, ok := recv.(*ast.StarExpr); ok {
+				recv = unparen(st.X)
+			}
+			id, ok := recv.(*ast.Ident)
+			if !ok || !p.isPkgLevel(id) {
+				return true
+			}
+			m := sel.Sel.Name
+			kind := p.kinds[id.Name]
+			if (containerLike[kind] && !containerReadOnly[m]) || mutatingMethod[m] {
+				sink(id.Name, "call:"+m, s.Pos())
+			}
+		}
+		return true
+	})
 }
 
 // isPkgLevel says whether an identifier occurrence denotes a package-level
@@ -296,6 +416,13 @@ func pkgWriteFacts(root string, pkgs []string) ([]srcWrite, *callGraph, error) {
 							kind += "+lock"
 						}
 						w := srcWrite{v, fn, kind}
+						if !seen[w] {
+							seen[w] = true
+							writes = append(writes, w)
+						}
+					})
+					p.forEachPkgVarMutation(body, imports, func(v string, kind string, pos token.Pos) {
+						w := srcWrite{p.name + "." + v, fn, kind}
 						if !seen[w] {
 							seen[w] = true
 							writes = append(writes, w)
